@@ -269,7 +269,7 @@ func (b *bmcSys) bind(m *Machine, l *bloc, o *outcome) {
 		case "recv-rv":
 			if o.rvVals == nil {
 				for k, so := range bc.sorts {
-					o.rvVals = append(o.rvVals, f.Var(fmt.Sprintf("rv.l%d.a%d.%d", l.id, o.arm, k), so))
+					o.rvVals = append(o.rvVals, f.Var(fmt.Sprintf("rv.r%d.l%d.a%d.%d", b.extractRound, l.id, o.arm, k), so))
 				}
 			}
 			pos := 0
